@@ -31,9 +31,10 @@ type schedule struct {
 	Err       bool    `json:"err"`
 	Suite     int     `json:"suite"`
 	Dir       string  `json:"dir"`
-	Plan      string  `json:"plan"` // "small" | "big"
+	Plan      string  `json:"plan"`           // "small" | "big"
 	RcvCW     bool    `json:"rcv_closewrite"` // the receiver has half-closed (CloseWrite) before the records arrive
-	SeqStart  float64 `json:"seq_start"`      // != 0: sequence number of this direction when the planned records are written
+	SeqStart  string  `json:"seq_start"`      // hex, != "": sequence number of this direction when the planned records are written
+	ShortRand bool    `json:"short_rand"`     // both ends draw their randomness from a source that returns at most 3 bytes per Read
 	ID        int     `json:"id"`
 }
 
@@ -138,6 +139,10 @@ func c07Plan(suite uint16, plan string) (writes [][]byte, recs [][]byte) {
 		}
 		return [][]byte{p}, [][]byte{p[:16384], p[16384:32768], p[32768:]}
 	}
+	if plan == "exhaust" {
+		// three separate single-byte... no: three one-record writes whatever the suite (a 1-byte Write is never split)
+		return [][]byte{{65}, {66}, {67}}, [][]byte{{65}, {66}, {67}}
+	}
 	if plan == "alertlike" && !cbc {
 		// payloads that would parse as a warning alert / a ChangeCipherSpec if the record type were not authenticated
 		return [][]byte{{1, 91}, {1}, {1, 93}}, [][]byte{{1, 91}, {1}, {1, 93}}
@@ -231,7 +236,7 @@ type c07Obs struct {
 	ExtraBytes int    `json:"extra_bytes"` // bytes read beyond the last whole matching payload
 	ErrClass   string `json:"err_class"`   // "eof" | "fatal" | "timeout"
 	ErrText    string `json:"err_text"`
-	RecBits    int    `json:"rec_bits"` // size in bits of the record a single flip targets
+	RecBits    int    `json:"rec_bits"`  // size in bits of the record a single flip targets
 	AfterErr   int    `json:"after_err"` // bytes returned by Read calls made after the first error
 	Panic      string `json:"panic,omitempty"`
 }
@@ -242,7 +247,9 @@ func runSchedule(s *schedule) (obs c07Obs, err error) {
 	obs.ID = s.ID
 	suite := uint16(s.Suite)
 	ht.reset(map[string]interface{}{"id": s.ID})
+	gmPairShortRand = s.ShortRand
 	cli, srv, m, err := gmPair(suite)
+	gmPairShortRand = false
 	if err != nil {
 		return obs, err
 	}
@@ -273,21 +280,42 @@ func runSchedule(s *schedule) (obs c07Obs, err error) {
 		otherDir = cloneRec(back.seen[len(back.seen)-1])
 		back.mu.Unlock()
 	}
-	if s.SeqStart != 0 {
-		// the same schedule far into the connection: the counters of this direction stand just below 2^32
-		gmtls.VerifSetSeq(snd, rcv, uint64(s.SeqStart))
+	if s.SeqStart != "" {
+		// the same schedule far into the connection: the counters of this direction stand just below 2^32 (or 2^64)
+		v, perr := strconv.ParseUint(s.SeqStart, 16, 64)
+		if perr != nil {
+			return obs, perr
+		}
+		gmtls.VerifSetSeq(snd, rcv, v)
 	}
 	writes, recs := c07Plan(suite, s.Plan)
 	d.mu.Lock()
 	d.hold = true
 	d.mu.Unlock()
 	go func() {
+		// (a sender whose sequence numbers are used up may panic: the connection is over)
+		defer func() {
+			recover() // (nothing more is done with the connection: the interposer is closed when the schedule ends)
+		}()
 		for _, w := range writes {
 			if _, e := snd.Write(w); e != nil {
 				return
 			}
 		}
 	}()
+	if s.Plan == "exhaust" {
+		// the counters stand at 2^64 - 2: two records can still be sealed, a third must never leave the sender
+		d.waitHeld(3, 1500*time.Millisecond)
+		d.mu.Lock()
+		n := len(d.held)
+		d.mu.Unlock()
+		obs.Delivered, obs.BytesOK = n, n <= 2
+		obs.ErrClass = "eof"
+		if n > 2 {
+			obs.ErrText = fmt.Sprintf("%d records were sealed although only two sequence numbers were left", n)
+		}
+		return obs, nil
+	}
 	if got := d.waitHeld(len(recs), 5*time.Second); got != len(recs) {
 		return obs, fmt.Errorf("expected %d held records, got %d", len(recs), got)
 	}
